@@ -273,10 +273,136 @@ def r14c(ctx, rep):
                                      "equal? to every longer vector that starts with its elements", [s["loc"]])
 
 
+VPUT = "marwood::vm::vector::Vector::put"
+VGET = "marwood::vm::vector::Vector::get"
+VLEN = "marwood::vm::vector::Vector::len"
+
+
+def _in_loop(f, bb):
+    return any(bb in (f.reach_from(h) & f.reach_back(src)) | {h, src} for src, h in f.back_edges())
+
+
+def r14d(ctx, rep, rule="R14d"):
+    """index alignment of ranged element access, by linear forms over the MIR"""
+    from ..linear import Linear, Lin
+    facts = ctx["facts"]
+    rep.rule(rule, "ranged element access is aligned: inside a loop of a vector builtin the index handed to Vector::get / "
+             "Vector::put is summarised as a linear form over the loop variable and the popped operands. (i) At the first "
+             "iteration the form reduces to a single operand or a constant (the element range starts where one argument "
+             "says, not at a sum of two arguments); (ii) if the function compares anything against the length of the "
+             "vector being written, one of those tests compares exactly the form one past the last index written "
+             "(the capacity test agrees with the writes).")
+    n = 0
+    for p, f in sorted(facts.fns.items()):
+        if not p.startswith("marwood::vm::builtin::") or "::{closure" in p:
+            continue
+        L = None
+        for bb, t in f.calls():
+            c = callee(t)
+            if c not in (VPUT, VGET) or len(t["args"]) < 2 or not _in_loop(f, bb):
+                continue
+            L = L or Linear(f)
+            form = L.of(t["args"][1])
+            if not form.loops():
+                continue
+            n += 1
+            nm = f.short.rsplit("::", 1)[-1]
+            what = "put" if c == VPUT else "get"
+            k = len([1 for b2, t2 in f.calls() if callee(t2) == c and b2 < bb]) + 1
+            key = "%s|%s|%s#%d" % (rule, nm, what, k)
+            first = L.at_lowest(form)
+            if first.is_single():
+                rep.ok(rule, key + "|start", "%s: Vector::%s index `%s` starts at `%s`" % (nm, what, form, first), [t["loc"]])
+            else:
+                rep.fail(rule, key + "|start", "%s: the index handed to Vector::%s is `%s`, which for the first element of the range "
+                         "is `%s` — a sum of operands rather than the position one argument names, so a range that does not start "
+                         "at 0 is %s the wrong place" % (nm, what, form, first, "written to" if what == "put" else "read from"), [t["loc"]])
+            if c != VPUT:
+                continue
+            past = L.past_highest(form)
+            if past is None:
+                continue
+            recv = L.of(t["args"][0])
+            tests = []
+            for b2, j2, st in f.stmts():
+                rv = st["rv"]
+                if rv["k"] != "bin" or rv["op"] not in ("Gt", "Ge", "Lt", "Le"):
+                    continue
+                for side, other in (("a", "b"), ("b", "a")):
+                    o = f.origin(rv[side])
+                    if o[0] == "call" and callee(o[1]) == VLEN and L.of(o[1]["args"][0]) == recv:
+                        tests.append((L.of(rv[other]), st))
+            if not tests:
+                continue
+            # `at >= len` style tests of the start alone do not speak about the extent
+            extent = [(g, st) for g, st in tests if g == past]
+            if extent:
+                rep.ok(rule, key + "|capacity", "%s: the capacity test compares `%s`, one past the last index written" % (nm, past),
+                       [extent[0][1]["loc"]])
+            else:
+                rep.fail(rule, key + "|capacity", "%s writes indices up to `%s` (exclusive) but the tests against the destination's "
+                         "length compare %s: valid copies are rejected or the extent is not what is tested" % (
+                             nm, past, ", ".join("`%s`" % g for g, st in tests)), [tests[0][1]["loc"]])
+    rep.floor(rule, "loop-indexed Vector::get / Vector::put sites in the builtins", n, 2)
+
+
+def r14e(ctx, rep, rule="R14e"):
+    from ..linear import Linear
+    from ..shapes import dominating_guards
+    facts = ctx["facts"]
+    rep.rule(rule, "copies between possibly identical vectors are direction-aware: when one loop both reads Vector::get from one "
+             "popped vector and writes the value with Vector::put into another popped vector (two operands the caller may "
+             "bind to the same object), the loop is dominated by a comparison between the destination start and the source "
+             "start (so that an overlapping copy runs in the direction that reads every element before it is overwritten); "
+             "R7RS: 'as if the source is first copied into a temporary vector'.")
+    n = 0
+    for p, f in sorted(facts.fns.items()):
+        if not p.startswith("marwood::vm::builtin::") or "::{closure" in p:
+            continue
+        L = None
+        for bb, t in f.calls():
+            if callee(t) != VPUT or len(t["args"]) < 3 or not _in_loop(f, bb):
+                continue
+            o = f.origin(t["args"][2])
+            # peel Option::unwrap / clone
+            for _ in range(4):
+                if o[0] == "call" and (callee(o[1]) or "").endswith(("::unwrap", "::clone", "::expect")):
+                    o = f.origin(o[1]["args"][0])
+                else:
+                    break
+            if not (o[0] == "call" and callee(o[1]) == VGET):
+                continue
+            L = L or Linear(f)
+            src, dst = L.of(o[1]["args"][0]), L.of(t["args"][0])
+            if src == dst:
+                continue
+            n += 1
+            nm = f.short.rsplit("::", 1)[-1]
+            dform, sform = L.of(t["args"][1]), L.of(o[1]["args"][1])
+            dbase = {s for s in L.at_lowest(dform).symbols()}
+            sbase = {s for s in L.at_lowest(sform).symbols()}
+            ok = False
+            for g_bb, cond, taken, gt in dominating_guards(f, bb):
+                go = f.origin(cond)
+                if go[0] == "rv" and go[1]["rv"]["k"] == "bin" and go[1]["rv"]["op"] in ("Gt", "Ge", "Lt", "Le"):
+                    a, b = L.of(go[1]["rv"]["a"]).symbols(), L.of(go[1]["rv"]["b"]).symbols()
+                    if (a & dbase and b & sbase) or (a & sbase and b & dbase):
+                        ok = True
+            k = len([1 for b2, t2 in f.calls() if callee(t2) == VPUT and b2 < bb]) + 1
+            (rep.ok if ok else rep.fail)(
+                rule, "%s|%s|put#%d" % (rule, nm, k) if not ok else "%s|%s|put#%d" % (rule, nm, k),
+                "%s: the element loop runs under a comparison of the destination start with the source start" % nm if ok else
+                "%s copies element by element from one popped vector into another (index `%s` <- `%s`) in a single direction, "
+                "whatever the relative position of the two ranges: when both operands are the same vector and the destination "
+                "starts after the source, elements are overwritten before they are read" % (nm, dform, sform), [t["loc"]])
+    rep.floor(rule, "interleaved get->put loops between two popped vectors", n, 1)
+
+
 def run(ctx, rep):
     r14a(ctx, rep)
     r14b(ctx, rep)
     r14c(ctx, rep)
+    r14d(ctx, rep)
+    r14e(ctx, rep)
     rep.not_decided += ["that each procedure returns what R7RS specifies (value-level)",
-                        "offsets in vector-copy! (i + at instead of i - start + at is a wrong-answer defect no static rule here decides)",
                         "error-versus-wrong-answer for out-of-range indices", "equal?"]
